@@ -50,8 +50,15 @@ CONSTANTS
     Filters,      \* set of filters [n, a] (see Pass)
     Order,        \* the phases in the order they are applied: <<"open","close","clear","filter">> as stated (permuted or with
                   \*   a phase repeated in the non-vacuity configurations)
-    CompileMode   \* "stated": as the statement says (and as /repo does since 41a2136);  "shipped": the compile step as shipped
+    CompileMode,  \* "stated": as the statement says (and as /repo does since 41a2136);  "shipped": the compile step as shipped
                   \*   before that fix -- OPEN with a bare CLOSE crashes (TypeError); kept for the non-vacuity run
+    Inners,       \* set of subquery descriptors [on, c]: the statement is
+                  \*     ... FROM <filter> <clauses> WHERE account IN (SELECT account FROM <c.filter> <c's clauses>)
+                  \*   when on, a plain statement otherwise ({NoInner} in the configurations without nesting)
+    ScopeMode     \* "stated": every FROM clause ranges over the table carrying exactly the clauses written in it;
+                  \*   "inherit": a FROM clause without OPEN / CLOSE / CLEAR leaves the current table as it is (the subquery
+                  \*   inherits the clauses of the enclosing statement);  "norestore": the table of the subquery stays current
+                  \*   for the enclosing statement.  Both kept for the non-vacuity runs.
 
 -----------------------------------------------------------------------------
 (* Numbers *)
@@ -147,6 +154,25 @@ PeriodReportClauses(kt, LP, c, R, exact) ==
       TxBalanceOK(R, exact), LayoutOK(R)>>
 ClauseNames == <<"KeepOK", "BalanceSheetOK", "IncomeOK", "EquityOK", "TxBalanceOK", "LayoutOK">>
 
+(***************************************************************************)
+(* EVERY FROM clause presents the period report of the clauses written in  *)
+(* it -- of every subset of them, the empty one included -- wherever the   *)
+(* FROM clause stands: in the statement itself or in a subquery of it.     *)
+(* For  ... FROM f <c> WHERE account IN (SELECT account FROM fi <ci>)      *)
+(* with RO the report of c, RI the report of ci (both without filter):     *)
+(* the rows RN returned are the rows of RO whose transaction satisfies f   *)
+(* and whose account is among the accounts of the rows of RI whose         *)
+(* transaction satisfies fi.  (A subquery WITHOUT any FROM clause is not   *)
+(* covered: the statement says nothing about the table it ranges over.)    *)
+(***************************************************************************)
+HasClauses(c) == c.open > 0 \/ c.close >= 0 \/ c.clear
+HasFrom(c) == HasClauses(c) \/ c.filter.n # "none"
+AcctsOf(kt, R) == {kt[R[i].k].a : i \in 1..Len(R)}
+ScopeOK(kt, RO, f, RI, fi, RN) ==
+    LET A == AcctsOf(kt, SelectSeq(RI, LAMBDA p : Pass(fi, p)))
+    IN CoreSeq(RN) = CoreSeq(SelectSeq(RO, LAMBDA p : Pass(f, p) /\ kt[p.k].a \in A))
+NoInner == [on |-> FALSE, c |-> [open |-> 0, close |-> -1, clear |-> FALSE, filter |-> NoFilter]]
+
 -----------------------------------------------------------------------------
 (***************************************************************************)
 (* What the statement determines of the rows returned WITH filter f, as a  *)
@@ -171,6 +197,17 @@ ExpectValue(kt, LP, c, cur) ==  \* value at cost of all returned rows, per curre
         full == IF HasClose(c) THEN Z ELSE keptAll
     IN IF SynthPass(c.filter) = "all" THEN Add(Add(full, Neg(keptAll)), keptF) ELSE keptF
 
+(* Nested statements: the accounts the subquery FROM ci.filter <ci> selects are determined by the ledger alone when its
+   report has no synthetic row (no clause) or its filter passes none of them; then so are the original postings the
+   enclosing statement keeps and the totals of its non-Equity positions (restricted to those accounts). *)
+InnerDetermined(ci) == ~HasClauses(ci) \/ SynthPass(ci.filter) = "none"
+ExpectAccts(kt, LP, ci) == AcctsOf(kt, ExpectKept(LP, ci))
+ExpectKeptN(kt, LP, c, ci) == LET A == ExpectAccts(kt, LP, ci) IN SelectSeq(ExpectKept(LP, c), LAMBDA p : kt[p.k].a \in A)
+ExpectTotalsN(kt, LP, c, ci) ==
+    LET A == ExpectAccts(kt, LP, ci)
+        tot == ExpectTotals(kt, LP, c)
+    IN [k \in 1..Len(kt) |-> IF kt[k].a \in A THEN tot[k] ELSE Z]
+
 -----------------------------------------------------------------------------
 (***************************************************************************)
 (* THE MECHANISM (over the universe of KeyTab)                             *)
@@ -181,8 +218,12 @@ VARIABLES
     status,    \* "parse" | "compile" | "run" | "done" | "rejected" (CompilationError) | "crashed" (any other exception)
     pc,        \* the steps still to take
     entries,   \* the list being transformed
-    report     \* ghost: the list as the last clause step left it (what the filter expression is evaluated on)
-vars == <<ledger, cfg, status, pc, entries, report>>
+    report,    \* ghost: the list as the last clause step left it (what the filter expression is evaluated on)
+    inner,     \* the subquery of the statement: [on, c] (NoInner = none)
+    tab,       \* the tables still to be prepared, each the clauses [open, close, clear] it carries: the subquery's (if any), then
+               \*   the statement's own
+    sub        \* what the subquery yielded: [accts |-> the accounts it selects, report |-> ghost, its list as its last clause step left it]
+vars == <<ledger, cfg, status, pc, entries, report, inner, tab, sub>>
 
 NK == Len(KeyTab)
 KeyOf(a, c) == CHOOSE k \in 1..NK : KeyTab[k].a = a /\ KeyTab[k].c = c /\ KeyTab[k].lot = ""
@@ -251,6 +292,15 @@ StepsOf(c, phase) ==
       [] phase = "clear"  -> IF c.clear THEN <<"ClearTransfer">> ELSE <<>>
       [] phase = "filter" -> <<"ApplyFilter">>
 Program(c) == FoldLeft(LAMBDA acc, ph : acc \o StepsOf(c, ph), <<>>, Order)
+ClauseSteps(c) == FoldLeft(LAMBDA acc, ph : acc \o StepsOf(c, ph), <<>>, SelectSeq(Order, LAMBDA ph : ph # "filter"))
+
+\* compiler._compile_from on a FROM clause: table.update(open, close, clear) with the clauses written in THAT clause -- the
+\* absent ones reset -- whatever table was current (cur) before
+PlainTable == [open |-> 0, close |-> -1, clear |-> FALSE]
+TableOf(cur, c) ==
+    IF ScopeMode = "inherit" /\ ~HasClauses(c) THEN cur
+    ELSE [open |-> c.open, close |-> c.close, clear |-> c.clear]
+NoSub == [accts |-> {}, report |-> <<>>]
 
 InitWith(L) ==
     /\ ledger \in L
@@ -259,6 +309,9 @@ InitWith(L) ==
     /\ pc = <<>>
     /\ entries = ledger
     /\ report = ledger
+    /\ inner = NoInner
+    /\ tab = <<>>
+    /\ sub = NoSub
 
 Init == InitWith(Ledgers)
 
@@ -266,43 +319,55 @@ Init == InitWith(Ledgers)
 Statement ==
     /\ status = "parse"
     /\ cfg' \in [open : OpenArgs, close : CloseArgs, clear : ClearArgs, filter : Filters]
+    /\ inner' \in Inners
     /\ status' = "compile"
-    /\ UNCHANGED <<ledger, pc, entries, report>>
+    /\ UNCHANGED <<ledger, pc, entries, report, tab, sub>>
 
-\* compiler._compile_from: date order check, then table.update(open, close, clear)
+\* compiler._compile_from, for the FROM clause of the statement and then (the WHERE clause is compiled after it, the table
+\* of the statement being current) for the FROM clause of the subquery: date order check, then table.update(open, close,
+\* clear); the table of the enclosing statement is current again when the subquery is compiled
+RejectedStmt == Rejected(cfg) \/ (inner.on /\ Rejected(inner.c))
 Compile ==
     /\ status = "compile"
-    /\ IF CompileMode = "shipped" /\ HasOpen(cfg) /\ cfg.close = 0
-       THEN status' = "crashed" /\ UNCHANGED pc            \* before 41a2136: `node.open > node.close` with close = True
-       ELSE IF Rejected(cfg) THEN status' = "rejected" /\ UNCHANGED pc
-       ELSE status' = "run" /\ pc' = Program(cfg)
-    /\ UNCHANGED <<ledger, cfg, entries, report>>
+    /\ LET tOwn == TableOf(PlainTable, cfg)
+           tSub == TableOf(tOwn, inner.c)
+           tOuter == IF inner.on /\ ScopeMode = "norestore" THEN tSub ELSE tOwn
+       IN
+       IF CompileMode = "shipped" /\ HasOpen(cfg) /\ cfg.close = 0
+       THEN status' = "crashed" /\ UNCHANGED <<pc, tab>>    \* before 41a2136: `node.open > node.close` with close = True
+       ELSE IF RejectedStmt THEN status' = "rejected" /\ UNCHANGED <<pc, tab>>
+       ELSE /\ status' = "run"
+            /\ pc' = IF inner.on THEN ClauseSteps(tSub) \o <<"SubCollect">> \o Program(tOuter) \o <<"ApplyWhere">>
+                      ELSE Program(tOuter)
+            /\ tab' = IF inner.on THEN <<tSub, tOuter>> ELSE <<tOuter>>
+    /\ UNCHANGED <<ledger, cfg, entries, report, inner, sub>>
 
 At(name) == status = "run" /\ pc # <<>> /\ Head(pc) = name
+T == tab[1]      \* the table being prepared
 Becomes(new, isClause) ==
     /\ entries' = new
     /\ report' = IF isClause THEN new ELSE report
     /\ pc' = Tail(pc)
     /\ status' = IF Tail(pc) = <<>> THEN "done" ELSE "run"
-    /\ UNCHANGED <<ledger, cfg>>
+    /\ UNCHANGED <<ledger, cfg, inner, tab, sub>>
 
 \* OPEN ON d = summarize.open(): conversions before d; transfer Income / Expenses before d; summarize everything before d
 OpenConversions ==
     /\ At("OpenConversions")
-    /\ Becomes(Conversions(entries, cfg.open, Special.prev_conv), TRUE)
+    /\ Becomes(Conversions(entries, T.open, Special.prev_conv), TRUE)
 OpenTransfer ==
     /\ At("OpenTransfer")
-    /\ Becomes(TransferBalances(entries, cfg.open, Special.prev_earn), TRUE)
+    /\ Becomes(TransferBalances(entries, T.open, Special.prev_earn), TRUE)
 OpenSummarize ==
     /\ At("OpenSummarize")
-    /\ Becomes(Summarise(entries, cfg.open, Special.opening), TRUE)
+    /\ Becomes(Summarise(entries, T.open, Special.opening), TRUE)
 \* CLOSE [ON e] = summarize.close(): truncate at e (if given); conversions entry at the end
 CloseTruncate ==
     /\ At("CloseTruncate")
-    /\ Becomes(Truncate(entries, cfg.close), TRUE)
+    /\ Becomes(Truncate(entries, T.close), TRUE)
 CloseConversions ==
     /\ At("CloseConversions")
-    /\ Becomes(Conversions(entries, CloseDate(cfg), Special.cur_conv), TRUE)
+    /\ Becomes(Conversions(entries, CloseDate(T), Special.cur_conv), TRUE)
 \* CLEAR = summarize.clear(date = None): transfer Income / Expenses at the end
 ClearTransfer ==
     /\ At("ClearTransfer")
@@ -311,6 +376,22 @@ ClearTransfer ==
 ApplyFilter ==
     /\ At("ApplyFilter")
     /\ Becomes(SelectSeq(entries, LAMBDA x : Pass(cfg.filter, [t |-> x.t, date |-> x.date, flag |-> x.flag])), FALSE)
+\* the subquery SELECT account FROM <inner.c.filter> <its clauses> has been prepared on ITS table: its FROM expression is
+\* evaluated entry by entry, the accounts of the postings of the passing entries are collected; the table of the statement
+\* itself is prepared next, from the ledger
+SubCollect ==
+    /\ At("SubCollect")
+    /\ sub' = [accts |-> AcctsOf(KeyTab, SelectSeq(RowsOf(entries), LAMBDA p : Pass(inner.c.filter, p))), report |-> report]
+    /\ entries' = ledger
+    /\ report' = ledger
+    /\ tab' = Tail(tab)
+    /\ pc' = Tail(pc)
+    /\ UNCHANGED <<ledger, cfg, inner, status>>
+\* WHERE account IN (<the subquery>): evaluated posting by posting
+ApplyWhere ==
+    /\ At("ApplyWhere")
+    /\ Becomes([i \in 1..Len(entries) |->
+                   [entries[i] EXCEPT !.ps = SelectSeq(@, LAMBDA q : KeyTab[q.k].a \in sub.accts)]], FALSE)
 
 Next ==
     \/ Statement
@@ -319,6 +400,8 @@ Next ==
     \/ CloseTruncate \/ CloseConversions
     \/ ClearTransfer
     \/ ApplyFilter
+    \/ SubCollect
+    \/ ApplyWhere
 
 Spec == Init /\ [][Next]_vars
 
@@ -331,22 +414,36 @@ KeepInv == Done => KeepOK(LP, cfg, RowsOf(report))
 BalanceSheetInv == Done => BalanceSheetOK(KeyTab, LP, cfg, RowsOf(report))
 IncomeInv == Done => IncomeOK(KeyTab, LP, cfg, RowsOf(report))
 EquityInv == Done => EquityOK(KeyTab, LP, cfg, RowsOf(report))
-TxBalanceInv == TxBalanceOK(RowsOf(entries), TRUE)          \* in every intermediate list as well
+\* in every intermediate list as well (not of the rows a WHERE clause picks out of the transactions)
+TxBalanceInv == ~(Done /\ inner.on) => TxBalanceOK(RowsOf(entries), TRUE)
 LayoutInv == Done => LayoutOK(RowsOf(report)) /\ LayoutOK(RowsOf(entries))
-FilterInv == Done => FilterOK(RowsOf(report), cfg.filter, RowsOf(entries))
-\* compile time: rejected exactly when the CLOSE date precedes the OPEN date; everything else runs to completion
+FilterInv == (Done /\ ~inner.on) => FilterOK(RowsOf(report), cfg.filter, RowsOf(entries))
+\* the FROM clause of a subquery presents the period report of ITS OWN clauses (every clause of the property, with the
+\* clauses as written in the subquery), and the statement returns the rows of its own report the subquery selects
+ScopeInv ==
+    (Done /\ inner.on) =>
+      /\ \A i \in 1..Len(ClauseNames) : PeriodReportClauses(KeyTab, LP, inner.c, RowsOf(sub.report), TRUE)[i]
+      /\ ScopeOK(KeyTab, RowsOf(report), cfg.filter, RowsOf(sub.report), inner.c.filter, RowsOf(entries))
+\* compile time: rejected exactly when a CLOSE date precedes the OPEN date of the same FROM clause; everything else runs
+\* to completion
 CompileInv ==
     /\ status # "crashed"
-    /\ status = "rejected" => Rejected(cfg)
-    /\ status \in {"run", "done"} => ~Rejected(cfg)
+    /\ status = "rejected" => RejectedStmt
+    /\ status \in {"run", "done"} => ~RejectedStmt
 SortedInv == \A i \in 1..(Len(entries) - 1) : entries[i].date <= entries[i + 1].date
 \* what the generator emits is what the mechanism yields (ties the spec->code expectations to the model-checked spec)
 ExpectInv ==
     Done =>
       LET R == RowsOf(entries) IN
-      /\ CoreSeq(SelectSeq(R, LAMBDA p : ~Synthetic(p.flag))) = CoreSeq(ExpectKept(LP, cfg))
-      /\ SynthPass(cfg.filter) # "some" =>
-           /\ \A k \in 1..NK : KeyTab[k].r # "Q" => TotU(NK, R)[k] = ExpectTotals(KeyTab, LP, cfg)[k]
-           /\ \A i \in 1..Len(CurSeq) : VSum(KeyTab, R, CurSeq[i]) = ExpectValue(KeyTab, LP, cfg, CurSeq[i])
+      IF ~inner.on THEN
+          /\ CoreSeq(SelectSeq(R, LAMBDA p : ~Synthetic(p.flag))) = CoreSeq(ExpectKept(LP, cfg))
+          /\ SynthPass(cfg.filter) # "some" =>
+               /\ \A k \in 1..NK : KeyTab[k].r # "Q" => TotU(NK, R)[k] = ExpectTotals(KeyTab, LP, cfg)[k]
+               /\ \A i \in 1..Len(CurSeq) : VSum(KeyTab, R, CurSeq[i]) = ExpectValue(KeyTab, LP, cfg, CurSeq[i])
+      ELSE InnerDetermined(inner.c) =>
+          /\ sub.accts = ExpectAccts(KeyTab, LP, inner.c)
+          /\ CoreSeq(SelectSeq(R, LAMBDA p : ~Synthetic(p.flag))) = CoreSeq(ExpectKeptN(KeyTab, LP, cfg, inner.c))
+          /\ SynthPass(cfg.filter) # "some" =>
+               \A k \in 1..NK : KeyTab[k].r # "Q" => TotU(NK, R)[k] = ExpectTotalsN(KeyTab, LP, cfg, inner.c)[k]
 
 =============================================================================
